@@ -782,21 +782,36 @@ def run_rewrite_case(p):
 
 def run_registry_case(p):
     """C14: a variable without a domain ranges over exactly the live registry (instances of the type and its subclasses
-    constructed outside symbolic mode so far), each once, whatever the history"""
-    from entity_query_language import symbolic_mode, rule_mode, let, an, entity
+    constructed outside symbolic mode so far), each once, whatever the history.  Histories interleave concrete
+    construction (positional / keyword / defaults, decorated and undecorated subclasses four levels deep, a hand-written
+    __init__), symbolic construction, rule inference, clearing, queries evaluated at once and queries declared earlier and
+    evaluated later (the registry is read when the query is first evaluated)."""
+    from entity_query_language import symbolic_mode, rule_mode, let, an, entity, infer
     from entity_query_language.symbolic import Variable
     O.reset_registry()
     rng = random.Random(p['seed'])
-    live = {O.PBase: [], O.PSub: [], O.POther: []}
+    classes = [O.PBase, O.PSub, O.PSubSub, O.PHand, O.POther]
+    live = {K: [] for K in classes + [O.Built]}
     log = []
+    pending = []      # queries declared but not evaluated yet
 
     def expect(T):
         return [o for K, objs in live.items() if issubclass(K, T) for o in objs]
+
+    def compare(T, got, what):
+        want = expect(T)
+        if sorted(map(id, got)) != sorted(map(id, want)):
+            return {'history': list(log), 'type': T.__name__, 'what': what, 'got': [(type(o).__name__, getattr(o, 'name', '')) for o in got],
+                    'want': [(type(o).__name__, getattr(o, 'name', '')) for o in want],
+                    'signature_kind': 'multiplicity' if set(map(id, got)) == set(map(id, want)) else 'membership'}
+        return None
+    ops = ['new_pos', 'new_kw', 'new_default', 'symbolic', 'query', 'query', 'declare', 'eval_declared', 'infer']
+    if p.get('clear', True):
+        ops.append('clear')
     try:
-        for step in range(p.get('steps', 8)):
-            op = rng.choice(['new_pos', 'new_kw', 'new_default', 'symbolic', 'query', 'query', 'clear'] if p.get('clear', True)
-                            else ['new_pos', 'new_kw', 'new_default', 'symbolic', 'query', 'query'])
-            K = rng.choice([O.PBase, O.PSub, O.POther])
+        for step in range(p.get('steps', 10)):
+            op = rng.choice(ops)
+            K = rng.choice(classes)
             log.append((op, K.__name__))
             if op == 'new_pos':
                 live[K].append(K('n%d' % step, step))
@@ -806,28 +821,54 @@ def run_registry_case(p):
                 live[K].append(K('d%d' % step))
             elif op == 'symbolic':
                 with (symbolic_mode() if rng.random() < 0.5 else rule_mode()):
-                    v = K(name='sym')
+                    v = K(name='sym') if K is not O.PHand else K('sym')
                 if isinstance(v, K):
-                    return {'history': log, 'what': 'symbolic construction returned a real instance'}
+                    return {'history': list(log), 'what': 'symbolic construction returned a real instance', 'signature_kind': 'symbolic'}
             elif op == 'clear':
+                if pending:
+                    continue          # a declared query may have captured registry stores: keep those histories simple
                 for c in Variable._cache_.values():
                     c.clear()
                 Variable._cache_.clear()
                 for k in live:
                     live[k] = []
+            elif op == 'infer':
+                # rule inference constructs instances while evaluating: they are ordinary constructions
+                src = expect(O.PBase)[:2]
+                if not src:
+                    continue
+                with rule_mode():
+                    x = let(type_=O.PBase, domain=src)
+                    q = infer(entity(O.Built(a=x, tag='inferred'), x.size >= 0))
+                built = list(q.evaluate())
+                live[O.Built].extend(built)
+                if len(built) != len(src):
+                    return {'history': list(log), 'what': 'inference built %d instances for %d bindings' % (len(built), len(src)),
+                            'signature_kind': 'infer'}
+            elif op == 'declare':
+                T = rng.choice([O.PBase, O.PSub, O.PSubSub, O.Built])
+                if not expect(T):
+                    continue
+                with symbolic_mode():
+                    x = let(type_=T)
+                    pending.append((T, an(entity(x))))
+            elif op == 'eval_declared':
+                if not pending:
+                    continue
+                T, q = pending.pop(0)
+                d = compare(T, list(q.evaluate()), 'declared earlier, evaluated now')
+                if d:
+                    return d
             else:
-                T = rng.choice([O.PBase, O.PSub])
+                T = rng.choice([O.PBase, O.PSub, O.PSubSub, O.Built])
                 with symbolic_mode():
                     x = let(type_=T)
                     q = an(entity(x))
-                got = list(q.evaluate())
-                want = expect(T)
-                if sorted(map(id, got)) != sorted(map(id, want)):
-                    return {'history': log, 'type': T.__name__, 'got': [(type(o).__name__, o.name) for o in got],
-                            'want': [(type(o).__name__, o.name) for o in want],
-                            'signature_kind': 'multiplicity' if set(map(id, got)) == set(map(id, want)) else 'membership'}
+                d = compare(T, list(q.evaluate()), 'declared and evaluated at once')
+                if d:
+                    return d
     except Exception as e:  # noqa
-        return {'history': log, 'exception': repr(e), 'trace': traceback.format_exc(limit=4), 'signature_kind': 'exception'}
+        return {'history': list(log), 'exception': repr(e), 'trace': traceback.format_exc(limit=4), 'signature_kind': 'exception'}
     return None
 
 
